@@ -310,6 +310,83 @@ Proof.
   destruct ign as [c|]; cbn [dir_patterns]; [|contradiction]. apply content_to_patterns_src.
 Qed.
 
+(* ---- the known class of P17, as a boolean on trees -------------------------------------------------------- *)
+(* every entry of the tree (reported or not), with its path from cur *)
+Fixpoint entries (cur : path) (t : tree) {struct t} : list path :=
+  match t with
+  | File => []
+  | Dir _ ch =>
+    (fix go (l : list (name * tree)) : list path :=
+       match l with
+       | [] => []
+       | (n, c) :: r => ((cur ++ [n]) :: entries (cur ++ [n]) c) ++ go r
+       end) ch
+  end.
+
+(* every pattern of every ignore file of the tree, with the directory of the file *)
+Fixpoint dirpats (cur : path) (t : tree) {struct t} : list (path * pattern) :=
+  match t with
+  | File => []
+  | Dir ign ch =>
+    map (pair cur) (dir_patterns cur ign) ++
+    (fix go (l : list (name * tree)) : list (path * pattern) :=
+       match l with
+       | [] => []
+       | (n, c) :: r => dirpats (cur ++ [n]) c ++ go r
+       end) ch
+  end.
+
+Lemma entries_dir cur ign ch :
+  entries cur (Dir ign ch) = flat_map (fun nt => (cur ++ [fst nt]) :: entries (cur ++ [fst nt]) (snd nt)) ch.
+Proof. cbn [entries]. induction ch as [|[n c] r IH]; [reflexivity|]. cbn [flat_map fst snd]. rewrite <- IH. reflexivity. Qed.
+
+Lemma dirpats_dir cur ign ch :
+  dirpats cur (Dir ign ch) = map (pair cur) (dir_patterns cur ign) ++ flat_map (fun nt => dirpats (cur ++ [fst nt]) (snd nt)) ch.
+Proof. cbn [dirpats]. f_equal. induction ch as [|[n c] r IH]; [reflexivity|]. cbn [flat_map fst snd]. rewrite <- IH. reflexivity. Qed.
+
+Lemma entries_node t : forall p cur ign ch n c,
+  node_at t p = Some (Dir ign ch) -> In (n, c) ch -> In (cur ++ p ++ [n]) (entries cur t).
+Proof.
+  intros p. revert t. induction p as [|m p IH]; intros t cur ign ch n c H Hin.
+  - cbn in H. injection H as ->. rewrite entries_dir. apply in_flat_map. exists (n, c). split; [exact Hin|]. left. reflexivity.
+  - cbn [node_at] in H. destruct t as [|i c0]; [discriminate|]. destruct (find_child m c0) as [c1|] eqn:Ef; [|discriminate].
+    apply find_child_Some in Ef. rewrite entries_dir. apply in_flat_map. exists (m, c1). split; [exact Ef|]. right. cbn [fst snd].
+    specialize (IH c1 (cur ++ [m]) ign ch n c H Hin). rewrite <- app_assoc in IH. exact IH.
+Qed.
+
+Lemma dirpats_node t : forall p cur ign ch pat,
+  node_at t p = Some (Dir ign ch) -> In pat (dir_patterns (cur ++ p) ign) -> In (cur ++ p, pat) (dirpats cur t).
+Proof.
+  intros p. revert t. induction p as [|m p IH]; intros t cur ign ch pat H Hin.
+  - cbn in H. injection H as ->. rewrite app_nil_r in *. rewrite dirpats_dir. apply in_or_app. left. apply in_map. exact Hin.
+  - cbn [node_at] in H. destruct t as [|i c0]; [discriminate|]. destruct (find_child m c0) as [c1|] eqn:Ef; [|discriminate].
+    apply find_child_Some in Ef. rewrite dirpats_dir. apply in_or_app. right. apply in_flat_map. exists (m, c1). split; [exact Ef|]. cbn [fst snd].
+    specialize (IH c1 (cur ++ [m]) ign ch pat H). rewrite <- app_assoc in IH. apply IH. exact Hin.
+Qed.
+
+Definition proper_prefixb (D q : path) : bool :=
+  if path_eq_dec (firstn (length D) q) D then negb (Nat.eqb (length q) (length D)) else false.
+
+Lemma proper_prefixb_spec D q : proper_prefixb D q = true -> exists r, q = D ++ r /\ r <> [].
+Proof.
+  unfold proper_prefixb. destruct (path_eq_dec _ _) as [E|]; [|discriminate]. intros H.
+  exists (skipn (length D) q). split.
+  - rewrite <- E at 1. symmetry. apply firstn_skipn.
+  - intros Hs. apply negb_true_iff in H. apply Nat.eqb_neq in H. apply H.
+    rewrite <- (firstn_skipn (length D) q) at 1. rewrite Hs, app_nil_r, E. reflexivity.
+Qed.
+
+(* some pattern of an ignore file below the root matches (as a glob) an entry that is not below the
+   directory of that file *)
+Definition known_P17 (gm : bytes -> bytes -> bool) (t : tree) : bool :=
+  existsb (fun dp => match fst dp with
+                     | [] => false
+                     | _ => existsb (fun q => gm (p_glob (snd dp)) (render q) && negb (proper_prefixb (fst dp) q)) (entries [] t)
+                     end) (dirpats [] t).
+
+Lemma if_true_same (b : bool) : (if b then true else true) = true.
+Proof. destruct b; reflexivity. Qed.
+
 (* ---- the walk of one tree ---------------------------------------------------------------------------- *)
 Section Walk.
 Variable gm : bytes -> bytes -> bool.
@@ -375,31 +452,64 @@ Lemma sub_G_RB p : sub G (RB p).
 Proof. apply rb_mono. Qed.
 
 Hypothesis Hwf : wf_tree T0 = true.
-Hypothesis Hfixed : fixed_P17 = true.
+(* Locality of the rules of this tree: a pattern of the ignore file of a directory of the tree that hits
+   an entry of the tree sits above that entry.  With the P17 fix this is what the explicit prefix test
+   of IgnoreRules::check gives for every tree ([local_of_fixed]); without it, it holds exactly for the
+   trees outside the known class ([local_of_not_known]). *)
+Definition local_rules : Prop :=
+  forall pat p' ign' ch' p ign ch n t,
+    is_node p' ign' ch' -> In pat (dir_patterns p' ign') ->
+    is_node p ign ch -> In (n, t) ch -> hits (render (p ++ [n])) pat = true ->
+    exists r, p ++ [n] = p' ++ r /\ r <> [].
 
-(* The heart of the argument: for a path q directly below a directory of the tree, any rule set that
-   contains the rules of q's ancestors and otherwise only patterns of other directories of the tree
-   gives the verdict of the reference walk -- patterns of other directories do not apply to q. *)
-Lemma check_stable R p ign ch n :
-  is_node p ign ch -> good n -> sub (RB (p ++ [n])) R -> sourced R ->
+Lemma entry_good p ign ch n t : is_node p ign ch -> In (n, t) ch -> Forall good (p ++ [n]).
+Proof.
+  intros Hn Hin. destruct (node_at_wf T0 p _ Hwf Hn) as [Hp Hwd]. destruct (wf_children ign ch Hwd) as [_ Hc].
+  apply Forall_app. split; [exact Hp|constructor; [apply (Hc n t Hin)|constructor]].
+Qed.
+
+Lemma local_of_fixed : fixed_P17 = true -> local_rules.
+Proof.
+  intros Hfixed pat p' ign' ch' p ign ch n t Hn' Hin Hn Hc Hh.
+  unfold pat_hits in Hh. rewrite Hfixed in Hh. apply andb_true_iff in Hh as [Ha _].
+  destruct p' as [|m p']; [exists (p ++ [n]); split; [reflexivity|destruct p; discriminate]|].
+  destruct (node_at_wf T0 (m :: p') _ Hwf Hn') as [Hgp' _].
+  apply (applies_below pat (m :: p') (p ++ [n]) (dir_patterns_src _ _ _ Hin)); try assumption.
+  - discriminate.
+  - destruct p; discriminate.
+  - eapply entry_good; eassumption.
+Qed.
+
+Lemma local_of_not_known : known_P17 gm T0 = false -> local_rules.
+Proof.
+  intros Hk pat p' ign' ch' p ign ch n t Hn' Hin Hn Hc Hh.
+  destruct p' as [|m p']; [exists (p ++ [n]); split; [reflexivity|destruct p; discriminate]|].
+  apply proper_prefixb_spec. destruct (proper_prefixb (m :: p') (p ++ [n])) eqn:Ep; [reflexivity|]. exfalso.
+  unfold pat_hits in Hh. apply andb_true_iff in Hh as [_ Hg].
+  assert (Hd := dirpats_node T0 (m :: p') [] ign' ch' pat Hn' Hin). assert (He := entries_node T0 p [] ign ch n t Hn Hc). cbn [app] in Hd, He.
+  assert (Ht : known_P17 gm T0 = true); [|rewrite Ht in Hk; discriminate].
+  unfold known_P17. apply existsb_exists. exists (m :: p', pat). split; [exact Hd|]. cbn [fst snd].
+  apply existsb_exists. exists (p ++ [n]). split; [exact He|]. rewrite Hg, Ep. reflexivity.
+Qed.
+
+Hypothesis Hlocal : local_rules.
+
+(* The heart of the argument: for an entry q of a directory of the tree, any rule set that contains the
+   rules of q's ancestors and otherwise only patterns of other directories of the tree gives the verdict
+   of the reference walk -- patterns of other directories do not hit q. *)
+Lemma check_stable R p ign ch n t :
+  is_node p ign ch -> In (n, t) ch -> sub (RB (p ++ [n])) R -> sourced R ->
   check' R (p ++ [n]) = check' (RB (p ++ [n])) (p ++ [n]).
 Proof.
-  intros Hn Hgn Hsub Hsrc.
+  intros Hn Hc Hsub Hsrc.
   set (q := p ++ [n]) in *. set (s := render q).
-  assert (Hgq : Forall good q).
-  { destruct (node_at_wf T0 p _ Hwf Hn) as [Hp _]. unfold q. apply Forall_app. split; [exact Hp|constructor; [exact Hgn|constructor]]. }
-  assert (Hqne : q <> []) by (unfold q; destruct p; discriminate).
   (* a pattern of a directory of the tree that hits q is loaded in RB q *)
   assert (Hloc : forall pat p' ign' ch', is_node p' ign' ch' -> In pat (dir_patterns p' ign') -> hits s pat = true ->
                    loaded (dir_patterns p' ign') (RB q)).
-  { intros pat p' ign' ch' Hn' Hin Hh. unfold pat_hits in Hh. rewrite Hfixed in Hh. apply andb_true_iff in Hh as [Ha _].
-    assert (Hsrc' := dir_patterns_src _ _ _ Hin).
-    destruct p' as [|m p'].
-    - destruct q as [|n0 r0]; [contradiction|]. apply (node_loaded T0 [] G [] ign' ch' n0 r0 Hn').
-    - destruct (node_at_wf T0 (m :: p') _ Hwf Hn') as [Hgp' _].
-      destruct (applies_below pat (m :: p') q Hsrc') as (r & Eq & Hr); try assumption; [discriminate|].
-      destruct r as [|n0 r0]; [contradiction|]. unfold RB. rewrite Eq.
-      apply (node_loaded T0 (m :: p') G [] ign' ch' n0 r0 Hn'). }
+  { intros pat p' ign' ch' Hn' Hin Hh.
+    destruct (Hlocal pat p' ign' ch' p ign ch n t Hn' Hin Hn Hc Hh) as (r & Eq & Hr).
+    destruct r as [|n0 r0]; [contradiction|]. unfold RB, q. rewrite Eq.
+    apply (node_loaded T0 p' G [] ign' ch' n0 r0 Hn'). }
   destruct Hsub as [Hsi Hsw]. destruct Hsrc as [Hi Hw].
   assert (Ew : existsb (hits s) (r_white R) = existsb (hits s) (r_white (RB q))).
   { apply eq_true_iff_eq. split; intros H.
@@ -490,8 +600,7 @@ Qed.
 (* one child check, as both walkers do it, with any adequate rule set *)
 Lemma check_child R q t : child_ok R (q, t) -> sourced R -> check' R q = check' (RB q) q.
 Proof.
-  intros Hc Hsrc. destruct (child_node q t R Hc) as [(p & n & ign & ch & -> & Hn & Hg) _].
-  destruct Hc as (p' & n' & i' & c' & E & _ & _ & Hs).
+  intros (p & n & ign & ch & -> & Hn & Hin & Hs) Hsrc.
   eapply check_stable; eassumption.
 Qed.
 
@@ -912,7 +1021,7 @@ Proof.
   unfold check, check_str. destruct (existsb _ (r_white R)); [reflexivity|].
   assert (He : existsb (hits (render (p ++ [n]))) (r_ign R) = true).
   { apply existsb_exists. exists pat. split; [apply (proj1 Hs); exact Hin|].
-    unfold pat_hits, applies. rewrite Hsrc, Hgm. destruct fixed_P17; reflexivity. }
+    unfold pat_hits, applies. rewrite Hsrc, Hgm, if_true_same. reflexivity. }
   rewrite He. cbn. discriminate.
 Qed.
 
@@ -1071,3 +1180,36 @@ Proof.
   intros Hs. destruct (final c) eqn:Ef; [reflexivity|]. destruct (progress c Ef) as (i & Hi). rewrite Hs in Hi. contradiction.
 Qed.
 End Termination.
+
+(* ---- statements in the form Props/C09.v uses ------------------------------------------------------------ *)
+Lemma forallb_good p : forallb good_name p = true -> Forall good p.
+Proof.
+  intros H. apply Forall_forall. intros n Hn. apply good_name_good. rewrite forallb_forall in H. apply H. exact Hn.
+Qed.
+
+(* with the locality test, a pattern of D/.xvcignore that hits the rendering of q sits properly above q *)
+Lemma pattern_local_lemma gm pat D ign q :
+  In pat (dir_patterns D ign) -> D <> [] -> forallb good_name D = true -> q <> [] -> forallb good_name q = true ->
+  pat_hits gm true (render q) pat = true -> exists r, q = D ++ r /\ r <> [].
+Proof.
+  intros Hin HD HgD Hq Hgq Hh. unfold pat_hits in Hh. apply andb_true_iff in Hh as [Ha _].
+  apply (applies_below pat D q (dir_patterns_src _ _ _ Hin) HD (forallb_good _ HgD) Hq (forallb_good _ Hgq) Ha).
+Qed.
+
+Definition walk_deterministic gm (fixed : bool) globals ign ch : Prop :=
+  forall n sched, (1 <= n)%nat ->
+    let c := par_walk gm fixed n globals ign ch sched in
+    final c = true ->
+    Permutation (c_out c) (spec_walk gm fixed globals ign ch) /\ NoDup (c_out c).
+
+Lemma par_ignored_dir_hides_subtree_lemma gm fixed globals ign ch n sched x p m r :
+  wf_tree (Dir ign ch) = true -> local_rules gm fixed ign ch -> (1 <= n)%nat ->
+  let c := par_walk gm fixed n globals ign ch sched in
+  final c = true -> In x (c_out c) -> x = p ++ m :: r ->
+  is_ignore (check gm fixed (RB globals ign ch (p ++ [m])) (p ++ [m])) = false.
+Proof.
+  intros Hwf Hl Hn c Hf Hin E.
+  destruct (par_walk_deterministic_lemma gm fixed globals ign ch Hwf Hl n sched Hn Hf) as [Hp _].
+  apply (ignored_dir_hides_subtree_lemma gm fixed globals ign ch Hwf x p m r); [|exact E].
+  eapply Permutation_in; eassumption.
+Qed.
